@@ -52,9 +52,16 @@ def run(tier, seed):
     layouts = C.parse_payload(g.lines, "CASE ")
     if len(layouts) < 1000:
         raise C.InfraError("only %d layouts" % len(layouts))
+    def pagegap(l):
+        """two segments with a whole 64 KiB page between them that nothing is assembled in"""
+        if len(l) != 2:
+            return False
+        e0 = ((l[0]["st"]["h"] << 16) | l[0]["st"]["l"]) + l[0]["len"] - 1
+        return l[1]["st"]["h"] - (e0 >> 16) >= 2 and l[0]["len"] in (1, 17) and l[1]["len"] in (1, 17)
     if tier == "quick":
         singles = [l for l in layouts if len(l) == 1]
-        layouts = singles + rnd.sample([l for l in layouts if len(l) > 1], 200)
+        gaps = [l for l in layouts if pagegap(l)]
+        layouts = singles + gaps + rnd.sample([l for l in layouts if len(l) > 1 and not pagegap(l)], 200)
     else:
         singles = [l for l in layouts if len(l) <= 2]
         layouts = singles + rnd.sample([l for l in layouts if len(l) > 2], 6000)
